@@ -47,11 +47,13 @@ def run(ctx):
     rep.rule("C14.R4", "plain '=' into allocated system vectors only on owned index sets", 15)
     rep.rule("C14.R5", "list/callee co-definition (non-contact, non-E_pot families)", 40)
     rep.rule("C14.R6", "scatter method m calls contr.m (frozen exception table)", 60)
+    rep.rule("C14.R7", "repeatability: marker attributes are constructor data; the unique-name counter is monotone", 12)
     sm = sysmodel.SystemModel(ctx)
     r1_registry(ctx, sm)
     r2_counters(ctx, sm)
     r3_r4_r6_scatter(ctx, sm)
     sysmodel.codefinition(ctx, sm, "C14.R5", family=lambda p, m: not sysmodel.is_contact(m) and m != "E_pot")
+    r7_markers_and_counter(ctx, sm)
 
 
 # --------------------------------------------------------------------------
@@ -327,6 +329,67 @@ def _block_of(stmt):
 
 
 # --------------------------------------------------------------------------
+def r7_markers_and_counter(ctx, sm):
+    """(a) System.assemble decides by hasattr(contr, "n<kind>") which index sets a contribution owns.  If a contribution creates
+    such a marker outside its constructor (e.g. in assembler_callback) its status changes with the first assembly and a second
+    assemble() / set_new_initial_state() lays the system out differently.  (b) names stay unique only if the counter that
+    supplies the unique suffix never goes down and is advanced with every insertion."""
+    rep = ctx.rep
+    markers = set()
+    fn = sm.system.methods["assemble"]
+    for n in ast.walk(fn):
+        if isinstance(n, ast.Call) and dotted(n.func) == "hasattr" and len(n.args) == 2 and isinstance(n.args[1], ast.Constant) \
+                and isinstance(n.args[0], ast.Name) and n.args[0].id == "contr":
+            markers.add(n.args[1].value)
+    markers = {m for m in markers if m.startswith("n")}
+    if len(markers) < 8:
+        raise AnalysisError("marker attributes of System.assemble not recognised")
+    skip = ("cardillo/system.py", "cardillo/solver/", "cardillo/visualization/", "cardillo/utility/", "cardillo/math/", "cardillo/rods/discretization/")
+    for ci in sm.model.all_classes():
+        if ci.rel.startswith(skip):
+            continue
+        for m in sorted(markers):
+            for st in ci.stores.get(m, []):
+                C = f"{ci.rel}:{ci.qual}.{st.method}"
+                if st.method == "__init__":
+                    rep.ok("C14.R7", C, f"self.{m} is constructor data")
+                else:
+                    rep.bad("C14.R7", C, st.node, f"`self.{m}` is the marker by which System.assemble/set_new_initial_state recognise an owner of {m[1:]}-index "
+                            f"sets, but it is created in `{st.method}` (after the first assembly): assembling again, or restarting, treats the "
+                            f"contribution differently (allocates index sets, reads its q0/u0) - the layout is not repeatable", f"{ci.rel}:{st.node.lineno}")
+    # (b) unique-suffix counter
+    for mname, f2 in sm.system.methods.items():
+        for n in ast.walk(f2):
+            if isinstance(n, ast.AugAssign) and _is_self_attr(n.target, "ncontr"):
+                C = f"{SYS}:System.{mname}"
+                if isinstance(n.op, ast.Add) and isinstance(n.value, ast.Constant) and n.value.value > 0:
+                    rep.ok("C14.R7", C, norm_src(n))
+                else:
+                    rep.bad("C14.R7", C, n, "the counter that supplies the unique name suffix is decreased/changed non-monotonically: a suffix can be handed out "
+                            "twice, so two contributions get the same name and the registry overwrites one of them", f"{SYS}:{n.lineno}")
+            if isinstance(n, ast.Assign) and any(_is_self_attr(t, "ncontr") for t in n.targets):
+                C = f"{SYS}:System.{mname}"
+                if mname == "__init__" and isinstance(n.value, ast.Constant) and n.value.value == 0:
+                    rep.ok("C14.R7", C, norm_src(n))
+                else:
+                    rep.bad("C14.R7", C, n, "the unique-suffix counter is re-bound outside the constructor (suffixes can repeat)", f"{SYS}:{n.lineno}")
+    add = sm.system.methods["add"]
+    cfg = CFG(add)
+    ins = [n for n in cfg.nodes if n.kind == "stmt" and _map_mutation(n.ast) == "add"]
+    inc = [n for n in cfg.nodes if n.kind == "stmt" and isinstance(n.ast, ast.AugAssign) and _is_self_attr(n.ast.target, "ncontr")]
+    C = f"{SYS}:System.add"
+    if ins and inc:
+        hdr = _enclosing_loop_header(cfg, ins[0])
+        targets = [cfg.exit] + ([hdr] if hdr is not None else [])
+        leak = any(cfg.find_path([s for s, _ in ins[0].succ], t, blocked=lambda m: m is inc[0]) is not None for t in targets)
+        if leak:
+            rep.bad("C14.R7", C, ins[0].ast, "an insertion into the registry is not followed by `self.ncontr += 1` on every path", f"{SYS}:{ins[0].lineno}")
+        else:
+            rep.ok("C14.R7", C, "every registry insertion advances the unique-suffix counter")
+    else:
+        rep.bad("C14.R7", C, "self.ncontr += 1", "registry insertion / counter increment not found", f"{SYS}:{add.lineno}")
+
+
 # contribution-list key -> multiplier index set that every member of the list owns
 KEY_KIND = {"g": "la_g", "gamma": "la_gamma", "c": "la_c", "c_q": "la_c", "c_u": "la_c", "g_S": "la_S", "g_N": "la_N",
             "gamma_F": "la_F", "gamma_F_q": "la_F", "la_tau": "la_tau", "tau": "tau"}
@@ -459,6 +522,12 @@ MUTANTS = [
     dict(id="c14-m12", what="g_ddot passes u where u_dot is expected: u_dot[contr.qDOF]", file=SYS,
          old="t, q[contr.qDOF], u[contr.uDOF], u_dot[contr.uDOF]\n            )\n        return g_ddot",
          new="t, q[contr.qDOF], u[contr.uDOF], u_dot[contr.qDOF]\n            )\n        return g_ddot", expect="C14.R3"),
+]
+MUTANTS += [
+    dict(id="c14-m13", canary=True, what="remove()/pop() decrement the unique-suffix counter (seeded/C14-1)", file=SYS,
+         old="                del self.contributions_map[contr.name]\n            else:", new="                del self.contributions_map[contr.name]\n                self.ncontr -= 1\n            else:", expect="C14.R7"),
+    dict(id="c14-m14", what="Sphere2Plane creates the markers nq/nu during assembly (original defect)", file="cardillo/contacts/sphere2plane.py",
+         old="        self._nq = len(self.qDOF)\n", new="        self.nq = len(self.qDOF)\n", expect="C14.R7"),
 ]
 NEUTRAL = [
     dict(id="c14-n1", canary=True, what="rename loop-local and reformat", file=SYS,
